@@ -12,7 +12,7 @@ import random
 
 import torch
 
-from .programs import Built, as_int_list
+from .programs import Built, relayout, as_int_list
 
 
 def recording(inner, hook_scale=None):
@@ -132,6 +132,11 @@ class BackwardRun:
         # presentation of `tensors`: "rows = the scalars of `tensors`, flattened, in the order given", so a
         # tensor may equally be passed as the list of its scalars (many small tensors: this is also what
         # makes Python's set iteration order differ from the list order, which needs >= 5 elements)
+        # presentation of `tensors`: a differentiated tensor may be a dense but non-row-major view (what .t() or
+        # .permute() of a result gives): same values, same shape, reversed strides
+        self.strided_outputs = [i for i, t in enumerate(tens) if t.dim() >= 2 and not t.is_leaf and rng.random() < 0.4]
+        for i in self.strided_outputs:
+            tens[i] = relayout(tens[i], 1)
         self.exploded = sum(t.numel() for t in tens) >= 4 and rng.random() < 0.5
         if self.exploded:                               # (a leaf stays itself: its scalars would be non-leaf views)
             tens = [x for t in tens for x in ([t] if t.is_leaf else [t.reshape(-1)[i] for i in range(t.numel())])]
@@ -156,7 +161,8 @@ class BackwardRun:
         self.meta = {"shapes": [list(s) for s in B.shapes], "inputs_as": self.how, "order": order,
                      "retain": self.retain, "dtype": str(dtype).replace("torch.", ""), "k": k,
                      "tensors_exploded": self.exploded, "layouts": B.layouts, "calls_on_the_same_graph": reps,
-                     "arguments": "positional" if self.positional else "keyword"}
+                     "arguments": "positional" if self.positional else "keyword",
+                     "outputs_with_reversed_strides": self.strided_outputs}
 
     # -------------------------------------------------------------- property-layer comparisons
     def check_deposits(self) -> list[str]:
